@@ -424,9 +424,12 @@ def qufirst(ctx: Any) -> List[Ob]:
         return []
 
     cfg = cfg_of(rq.node)
-    from .c18 import request_roles
+    from .c18 import NoNextQueryTime, no_next_obligation, request_roles
 
-    roles = request_roles(ctx)
+    try:
+        roles = request_roles(ctx)
+    except NoNextQueryTime:
+        return obs + no_next_obligation(ctx, R)
     asg = [n for n in cfg.nodes if n.kind == 'stmt' and isinstance(n.ast, ast.Assign) and isinstance(n.ast.targets[0], ast.Name) and n.ast.targets[0].id == roles['qtype']]
     if len(asg) != 1:
         raise AnalysisError('anchor vanished: question type of the round in async_request')
@@ -461,9 +464,12 @@ def const(ctx: Any) -> List[Ob]:
     k = prog.const('zeroconf.const', '_DUPLICATE_QUESTION_INTERVAL')
     obs.append(ob(R, ('src/zeroconf/_services/info.py', '<module>'), f'{k} + min{tuple(iv)}', 'interval + minimum jitter is at least 1000 ms', k + min(iv) >= 1000 and k == 999))
     rq = prog.func('zeroconf._services.info.ServiceInfo.async_request')
-    from .c18 import request_roles
+    from .c18 import NoNextQueryTime, no_next_obligation, request_roles
 
-    roles = request_roles(ctx)
+    try:
+        roles = request_roles(ctx)
+    except NoNextQueryTime:
+        return obs + no_next_obligation(ctx, R)
     nxt = [st for st in walk_local_ordered(rq.node) if isinstance(st, (ast.Assign, ast.AugAssign)) and norm(st.targets[0] if isinstance(st, ast.Assign) else st.target) == roles['next'] and not (isinstance(st, ast.Assign) and norm(st.value) == roles['now'])]
     texts = [norm(s) for s in nxt]
     ok = len(nxt) == 2 and isinstance(nxt[0], ast.Assign) and isinstance(nxt[0].value, ast.BinOp) and isinstance(nxt[0].value.op, ast.Add) and {norm(nxt[0].value.left), norm(nxt[0].value.right)} == {roles['now'], roles['delay']} and isinstance(nxt[1], ast.AugAssign) and isinstance(nxt[1].op, ast.Add) and isinstance(nxt[1].value, ast.Call) and call_name(nxt[1].value) == '_get_random_delay'
